@@ -33,6 +33,10 @@ static bool g_mapped, g_on; static volatile bool g_run;
 static size_t g_bump, g_high; static FreeNode* g_free[NCLS];
 static const int QMAX = 64; static void* g_quar[QMAX]; static int g_qn, g_qdelay;
 static uint64_t g_allocs, g_live, g_peak_bytes;
+// liveness map, one byte per 16-byte granule of payload: 0 unknown (headers, padding, never handed out), 1 live, 2 freed.
+// Lets the instrumented atomics report an access to memory that has been given back to the allocator.
+static unsigned char* g_map;
+static inline void mark(const void* p, size_t n, unsigned char v) { size_t a = ((const char*)p - A_BASE) >> 4, b = ((const char*)p - A_BASE + n + 15) >> 4; memset(g_map + a, v, b - a); }
 
 static inline size_t cls_size(int c) { return c < 64 ? (size_t)(c + 1) * 16 : (size_t)2048 << (c - 64); }
 static inline int cls_of(size_t n) { if (n <= 1024) return n == 0 ? 0 : (int)((n - 1) / 16); int c = 64; size_t s = 2048; while (s < n) { s <<= 1; ++c; } return c; }
@@ -41,16 +45,19 @@ static void map_once() {
     if (g_mapped) return;
     void* p = mmap(A_BASE, A_SIZE, PROT_READ | PROT_WRITE, MAP_PRIVATE | MAP_ANONYMOUS | MAP_FIXED_NOREPLACE | MAP_NORESERVE, -1, 0);
     if (p != (void*)A_BASE) { fprintf(stderr, "dsim: cannot map arena at fixed address\n"); _exit(2); }
+    g_map = (unsigned char*)mmap(nullptr, A_SIZE >> 4, PROT_READ | PROT_WRITE, MAP_PRIVATE | MAP_ANONYMOUS | MAP_NORESERVE, -1, 0);
+    if (g_map == (unsigned char*)MAP_FAILED) { fprintf(stderr, "dsim: cannot map arena liveness map\n"); _exit(2); }
     g_mapped = true;
 }
 void arena_begin_run(bool enabled, int delay) {
     map_once();
-    if (g_high) memset(A_BASE, 0, g_high);
+    if (g_high) { memset(A_BASE, 0, g_high); memset(g_map, 0, (g_high >> 4) + 1); }
     g_bump = 0; g_high = 0; memset(g_free, 0, sizeof g_free); g_qn = 0; g_qdelay = delay > QMAX ? QMAX : delay;
     g_allocs = g_live = g_peak_bytes = 0; g_on = enabled; g_run = true;
 }
 void arena_end_run() { g_run = false; }
 void arena_stats(uint64_t* allocs, uint64_t* live, uint64_t* peak) { *allocs = g_allocs; *live = g_live; *peak = g_high; }
+bool arena_is_freed(const void* p) { return g_run && (const char*)p >= A_BASE && (const char*)p < A_BASE + g_high && g_map[((const char*)p - A_BASE) >> 4] == 2; }
 bool arena_contains(const void* p) { return (const char*)p >= A_BASE && (const char*)p < A_BASE + A_SIZE; }
 static inline bool use_arena() { return g_run && g_on && t_sim && t_bypass == 0; }
 
@@ -68,7 +75,7 @@ void* arena_alloc(size_t size, size_t align) {
     char* pay = blk + sizeof(Hdr);
     if (align > 16) pay = (char*)(((uintptr_t)pay + align - 1) & ~(uintptr_t)(align - 1));
     Hdr* h = (Hdr*)(pay - sizeof(Hdr)); h->magic = MAGIC_LIVE; h->cls = (uint32_t)c; h->size = (uint32_t)size; h->back = (uint32_t)(pay - blk);
-    ++g_allocs; ++g_live;
+    ++g_allocs; ++g_live; mark(pay, size ? size : 1, 1);
     return pay;
 }
 static void release(void* pay) {
@@ -81,6 +88,7 @@ void arena_free(void* p) {
     if (h->magic != MAGIC_LIVE) { fprintf(stderr, "dsim: invalid or double free of arena block %p (magic %x)\n", p, h->magic); abort(); }
     h->magic = MAGIC_FREE; --g_live;
     tso_drain_range(p, h->size);
+    mark(p, h->size ? h->size : 1, 2);
     memset(p, 0xDD, h->size);   // poison: a stale reader sees 0xDD.. (fast flavour)
     if (g_qdelay > 0) { if (g_qn == g_qdelay) { void* old = g_quar[0]; memmove(&g_quar[0], &g_quar[1], sizeof(void*) * (g_qn - 1)); --g_qn; release(old); } g_quar[g_qn++] = p; }
     else release(p);
